@@ -40,20 +40,20 @@ var methNames = []string{"OPTIONS", "DESCRIBE", "ANNOUNCE", "SETUP", "PLAY", "RE
 const sessBogus = 90 // an index no case ever reaches: "a Session header naming no session"
 
 type request struct {
-	conn, meth     int
-	sess           int // 0 none, k+1 = the k-th session opened in this case
-	cseq           bool
-	vstatus        int
-	verr           bool
-	path, track    int
-	mode           int // 0 absent 1 play 2 record
-	tr1, tr2       int // 0 none 1 UDP 2 TCP 3 multicast
-	cports         bool
-	rtp, rtcp      int
-	il             bool
-	il0, il1       int
-	ctype, sdp     int
-	latest         bool // resolve sess to "the most recently opened session" when executing
+	conn, meth  int
+	sess        int // 0 none, k+1 = the k-th session opened in this case
+	cseq        bool
+	vstatus     int
+	verr        bool
+	path, track int
+	mode        int // 0 absent 1 play 2 record
+	tr1, tr2    int // 0 none 1 UDP 2 TCP 3 multicast
+	cports      bool
+	rtp, rtcp   int
+	il          bool
+	il0, il1    int
+	ctype, sdp  int
+	latest      bool // resolve sess to "the most recently opened session" when executing
 }
 
 func (r request) line(l *hx.L) {
@@ -171,23 +171,23 @@ func b2i(b bool) int {
 // ---------- a case ----------
 
 type caseSpec struct {
-	mask   int
-	udp    bool
-	ips    []int // per connection: 0 = 127.0.0.1, 1 = 127.0.0.2
-	reqs   []request
-	kind   string
+	mask int
+	udp  bool
+	ips  []int // per connection: 0 = 127.0.0.1, 1 = 127.0.0.2
+	reqs []request
+	kind string
 }
 
 type stepObs struct {
-	req        request
-	sent       bool // the connection was (believed) open and the request was written
-	status     int
-	echo       bool
-	sid        int // index+1 of the session named by the response, 0 none, 98 unknown id
-	linked     int
-	open       []bool
-	states     []int
-	target     int // index of the session this request was routed to (-1 none) -- for the oracle
+	req    request
+	sent   bool // the connection was (believed) open and the request was written
+	status int
+	echo   bool
+	sid    int // index+1 of the session named by the response, 0 none, 98 unknown id
+	linked int
+	open   []bool
+	states []int
+	target int // index of the session this request was routed to (-1 none) -- for the oracle
 }
 
 type failure struct{ class, detail string }
@@ -222,7 +222,7 @@ func runCase(c *core, cs caseSpec) (res caseResult) {
 		}
 		conns[i] = rc
 		local := rc.local
-		if !c.waitFor(respWait, func() bool { recs[i] = c.conns[local]; return recs[i] != nil }) {
+		if !c.waitFor(respWait, func() bool { recs[i] = c.conns[local]; return recs[i] != nil && !recs[i].closed }) {
 			fail("conn-open-hang", "OnConnOpen not called for %s", local)
 			return
 		}
@@ -259,7 +259,6 @@ func runCase(c *core, cs caseSpec) (res caseResult) {
 	waitEnded := func(r *sessRec) bool { return c.waitFor(respWait, func() bool { return r.closes > 0 }) }
 
 	// oracle bookkeeping (independent of the model): RFC state per session, attached connections
-	var rfc []int
 	attached := map[int]map[int]bool{}
 	justified := map[int]bool{}
 	var obs []stepObs
@@ -307,13 +306,13 @@ func runCase(c *core, cs caseSpec) (res caseResult) {
 		streamingUDP := (st == gortsplib.ServerSessionStatePlay || st == gortsplib.ServerSessionStateRecord) &&
 			ss.Transport() != nil && ss.Transport().Protocol != gortsplib.ProtocolTCP
 		if len(ss.Conns()) == 0 && !streamingUDP {
-			justified[k] = true
 			if !waitEnded(r) {
 				fail("session-not-ended", "session %d lost its last connection in state %v (not streaming over UDP) and was not closed", k, st)
 			}
 		}
 	}
 
+	_ = justified
 	var cl hx.L
 	cl.N(1).I(cs.mask).B(cs.udp).N(0).N(2).I(len(cs.ips))
 	for _, ip := range cs.ips {
@@ -321,21 +320,12 @@ func runCase(c *core, cs caseSpec) (res caseResult) {
 	}
 	var il hx.L
 
-	queue := append([]request(nil), cs.reqs...)
-	probing := false
-	for len(queue) > 0 {
-		r := queue[0]
-		queue = queue[1:]
-		if r.latest {
-			r.sess = nSess() // index+1 of the most recent session; 0 = none yet -> bogus id
-			if r.sess == 0 {
-				r.sess = sessBogus
-			}
-			r.latest = false
-		}
-		cseq++
-		o := stepObs{req: r, target: -1}
+	// exchange sends one request and reads its response (nil = the connection is closed)
+	exchange := func(r request, cseq int) *rawResp {
 		rc := conns[r.conn]
+		if rc.dead {
+			return nil
+		}
 		sessID := ""
 		if r.sess != 0 {
 			if sr := sessAt(r.sess - 1); sr != nil {
@@ -344,42 +334,35 @@ func runCase(c *core, cs caseSpec) (res caseResult) {
 				sessID = "00000000000000000000000000000bad"
 			}
 		}
-		before := nSess()
-		prevState := map[int]int{}
-		for k := 0; k < before; k++ {
-			if sr := sessAt(k); !ended(sr) {
-				prevState[k] = int(sr.ss.State())
-			}
-		}
 		var rr *rawResp
 		var err error = io.EOF
-		if !rc.dead {
-			o.sent = true
-			if werr := rc.write(r.wire(addr, cseq, sessID)); werr != nil {
-				rc.dead = true
-			} else {
-				rr, err = rc.readResponse(respWait)
-			}
-			if err == errHang {
-				fail("hang", "no response to request %d (%s) within %v", cseq, r, respWait)
-				res.caseLine, res.implLine = cl.String(), il.String()
-				return
-			}
-			if rr == nil {
-				if connClosed(r.conn) || rc.dead {
-					afterConnClosed(r.conn)
-				}
-			}
+		if werr := rc.write(r.wire(addr, cseq, sessID)); werr != nil {
+			rc.dead = true
+		} else {
+			rr, err = rc.readResponse(respWait)
 		}
+		if err == errHang {
+			fail("hang", "no response to request %d (%s) within %v", cseq, r, respWait)
+			return nil
+		}
+		if rr == nil {
+			afterConnClosed(r.conn)
+			return nil
+		}
+		if rr.cseq != "" && rr.cseq != fmt.Sprint(cseq) {
+			fail("cseq-mismatch", "request %d (%s) answered with CSeq %q", cseq, r, rr.cseq)
+		}
+		if r.cseq && rr.cseq == "" {
+			fail("cseq-missing", "request %d (%s) answered without CSeq", cseq, r)
+		}
+		return rr
+	}
+	// record appends one step (request, response, snapshot) to the case and runs the oracle on it
+	record := func(r request, rr *rawResp, cseq int, before int, prevState map[int]int) {
+		o := stepObs{req: r, target: -1}
 		if rr != nil {
 			o.status = rr.status
 			o.echo = rr.cseq == fmt.Sprint(cseq)
-			if rr.cseq != "" && !o.echo {
-				fail("cseq-mismatch", "request %d (%s) answered with CSeq %q", cseq, r, rr.cseq)
-			}
-			if r.cseq && rr.cseq == "" {
-				fail("cseq-missing", "request %d (%s) answered without CSeq", cseq, r)
-			}
 			if rr.session != "" {
 				o.sid = 98
 				for k := 0; k < nSess(); k++ {
@@ -388,18 +371,7 @@ func runCase(c *core, cs caseSpec) (res caseResult) {
 					}
 				}
 			}
-			// TEARDOWN accepted: the session must end now
-			if r.meth == mTeardown && rr.status == 200 && r.sess != 0 {
-				if sr := sessAt(r.sess - 1); sr != nil {
-					justified[r.sess-1] = true
-					if !waitEnded(sr) {
-						fail("teardown-not-ended", "TEARDOWN of session %d answered 200 but the session was not closed", r.sess-1)
-					}
-				}
-			}
-		}
-		// which session did the request reach? named one if it exists, else the one linked afterwards
-		if rr != nil {
+			// which session did the request reach? the named one if it exists, else the linked one
 			if r.sess != 0 && sessAt(r.sess-1) != nil {
 				o.target = r.sess - 1
 			}
@@ -415,26 +387,9 @@ func runCase(c *core, cs caseSpec) (res caseResult) {
 				o.target = nSess() - 1
 			}
 		}
-		// a response with an error status may be followed by the server closing the connection:
-		// find out now with a probe (which is part of the case), so that everything is quiescent
-		// before the next request
-		if rr != nil && rr.status >= 400 && !probing {
-			probing = true
-			queue = append([]request{{conn: r.conn, meth: mOptions, cseq: true, vstatus: 200}}, queue...)
-		} else {
-			probing = false
-		}
-		if rr == nil && o.sent {
-			o.sent = false // treated like a request on a closed connection
-		}
-
-		// snapshot
 		o.open = make([]bool, len(conns))
 		for i := range conns {
 			o.open[i] = !connClosed(i)
-		}
-		if !o.open[r.conn] {
-			o.linked = 0
 		}
 		n := nSess()
 		for k := 0; k < n; k++ {
@@ -445,12 +400,13 @@ func runCase(c *core, cs caseSpec) (res caseResult) {
 				o.states = append(o.states, int(sr.ss.State()))
 			}
 		}
+		var last *stepObs
+		if len(obs) > 0 {
+			last = &obs[len(obs)-1]
+		}
 		obs = append(obs, o)
 
 		// ----- the property's oracle on this step -----
-		for len(rfc) < n {
-			rfc = append(rfc, 0)
-		}
 		if rr != nil && o.target >= 0 {
 			k := o.target
 			if attached[k] == nil {
@@ -458,6 +414,9 @@ func runCase(c *core, cs caseSpec) (res caseResult) {
 			}
 			if o.linked == k+1 {
 				attached[k][r.conn] = true
+			}
+			if r.meth == mTeardown && rr.status == 200 {
+				delete(attached[k], r.conn)
 			}
 			prev, had := prevState[k]
 			if !had && k >= before {
@@ -477,19 +436,33 @@ func runCase(c *core, cs caseSpec) (res caseResult) {
 					fail("illegal-request-accepted", "%s in state %s answered %d", r, stName(prev), rr.status)
 				case !allowed && now != prev:
 					fail("illegal-request-moved-state", "%s in state %s answered %d and moved the session to %s", r, stName(prev), rr.status, stName(now))
-				case rr.status >= 400 && now != prev && r.meth == mRecord && prev == 3 && now == 4:
-					fail("record-udp-start-failure", "%s answered %d but the session moved to state record (and is left without a timer)", r, rr.status)
+				case rr.status >= 400 && r.meth == mRecord && prev == 3 && now == 4:
+					fail("record-udp-start-failure", "%s answered %d but the session moved to state record", r, rr.status)
 				case now != want:
 					fail("state-not-rfc", "%s in state %s answered %d: state is %s, RFC 2326 machine says %s", r, stName(prev), rr.status, stName(now), stName(want))
 				}
 			}
 		}
-		// sessions that ended during this step need a reason named by the property
+		// a session that ended during this step needs a reason named by the property:
+		// TEARDOWN answered 200, or its last connection went away while it was not streaming over UDP
 		for k := 0; k < n; k++ {
-			if o.states[k] == 9 && (len(obs) < 2 || k >= len(obs[len(obs)-2].states) || obs[len(obs)-2].states[k] != 9) {
-				if !justified[k] {
-					fail("session-ended-unjustified", "session %d ended after %s without TEARDOWN and without losing its last connection", k, r)
+			if o.states[k] != 9 || (last != nil && k < len(last.states) && last.states[k] == 9) {
+				continue
+			}
+			if r.meth == mTeardown && rr != nil && rr.status == 200 && o.target == k {
+				continue
+			}
+			anyOpen := false
+			for ci := range attached[k] {
+				if o.open[ci] {
+					anyOpen = true
 				}
+			}
+			ps, had := prevState[k]
+			tr := sessAt(k).ss.Transport()
+			streamingUDP := had && (ps == 2 || ps == 4) && tr != nil && tr.Protocol != gortsplib.ProtocolTCP
+			if anyOpen || streamingUDP {
+				fail("session-ended-unjustified", "session %d (state %s) ended after %s without TEARDOWN and without losing its last connection", k, stName(ps), r)
 			}
 		}
 		// other sessions must not be affected
@@ -507,6 +480,60 @@ func runCase(c *core, cs caseSpec) (res caseResult) {
 		il.I(len(o.states))
 		for _, x := range o.states {
 			il.I(x)
+		}
+	}
+
+	for _, r := range cs.reqs {
+		if r.latest {
+			r.sess = nSess() // index+1 of the most recent session; none yet -> an id no session has
+			if r.sess == 0 {
+				r.sess = sessBogus
+			}
+			r.latest = false
+		}
+		before := nSess()
+		prevState := map[int]int{}
+		for k := 0; k < before; k++ {
+			if sr := sessAt(k); !ended(sr) {
+				prevState[k] = int(sr.ss.State())
+			}
+		}
+		cseq++
+		myCSeq := cseq
+		rr := exchange(r, myCSeq)
+		if hung(res.fails) {
+			res.caseLine, res.implLine = cl.String(), il.String()
+			return
+		}
+		if rr != nil && r.meth == mTeardown && rr.status == 200 && r.sess != 0 {
+			// TEARDOWN accepted: the session must end now
+			if sr := sessAt(r.sess - 1); sr != nil && !waitEnded(sr) {
+				fail("teardown-not-ended", "TEARDOWN of session %d answered 200 but the session was not closed", r.sess-1)
+			}
+		}
+		// an error status may be followed by the server closing the connection: find out with a probe
+		// (a request of the case like any other) before looking at the state, so that what is
+		// observed is quiescent
+		var pr *rawResp
+		probe := request{conn: r.conn, meth: mOptions, cseq: true, vstatus: 200}
+		probed := rr != nil && rr.status >= 400
+		if probed {
+			cseq++
+			pr = exchange(probe, cseq)
+			if hung(res.fails) {
+				res.caseLine, res.implLine = cl.String(), il.String()
+				return
+			}
+		}
+		record(r, rr, myCSeq, before, prevState)
+		if probed {
+			ps2 := map[int]int{}
+			for k, s := range obs[len(obs)-1].states {
+				if s != 9 {
+					ps2[k] = s
+				}
+			}
+			record(probe, pr, cseq, nSess(), ps2)
 		}
 	}
 	res.steps = len(obs)
@@ -695,6 +722,7 @@ func main() {
 	if workers < 2 {
 		workers = 2
 	}
+	startScenarios(ctx.Thorough)
 	var cases []caseSpec
 	cases = append(cases, corpusCases()...)
 	cases = append(cases, generate(ctx)...)
@@ -705,4 +733,13 @@ func main() {
 	pipelined(ctx)
 	formulas(ctx)
 	timeoutScenarios(ctx)
+}
+
+func hung(fs []failure) bool {
+	for _, f := range fs {
+		if f.class == "hang" {
+			return true
+		}
+	}
+	return false
 }
